@@ -12,12 +12,17 @@ Mirrors, formula by formula / branch by branch:
 * `MobilizedBodyImpl::lock / lockAt / unlock / getLockLevel / getLockValueAsVector`, lock-by-default
   initialisation of `realizeSubsystemModelImpl`                   (`Mob.lock`, `Mob.lockAt`, `Mob.unlock`, …)
 * the free / prescribed / zero partition of q, u, udot and the pool allocation of
-  `realizeSubsystemInstanceImpl`, pool filling of `MobilizedBodyImpl::realizeTime/Position/Dynamics`
-                                                                  (`instanceMethods`, `partition`)
-* forward dynamics with prescribed mobilities as block elimination on the dense mass matrix, in the sign
+  `realizeSubsystemInstanceImpl`, pool filling of `MobilizedBodyImpl::realizeTime/Position/Dynamics` including the
+  choice of callback per level and `u = N⁻¹ q̇`, `u̇ = N⁻¹(q̈ − Ṅu)` for holonomic Motions
+                                                                  (`instanceMethods`, `MobIn.*PoolVals`, `partition`,
+                                                                   `prescribe`, `knownUDot`)
+* a DENSE REFERENCE for forward dynamics with prescribed mobilities: block elimination on the mass matrix, in the sign
   convention of the code (`RigidBodyNodeSpec.cpp`:  `M udot + tau = f`, i.e. `tau` sits on the LHS):
       `M_rr udot_r = f_r − M_rp udot_p`,   `tau_p = f_p − M_pr udot_r − M_pp udot_p`        (`elim`)
   `findMotionForces` (`unpackTau`), `calcMotionPower = −Σ tau_i u_i` (`motionPower`).
+  The code's own O(n) recursion with prescribed nodes (`z += P(H u̇_p)`, `z⁺ = z`, `tau = eps − ~H(P A⁺)`) is the
+  executable `TreeDyn.abiIn / fwdIn / fwdOut` (SimbodyModel/TreeDyn.lean, run by the `aba` records of the C10 driver);
+  its abstract twin and the theorems about it are in SimbodyProofs/C10_aba.lean.
 -/
 namespace C10
 
